@@ -30,7 +30,7 @@ theorem getD_idxOf_map {α β : Type} [DecidableEq α] (l : List α) (f : α →
 
 /-- **Every matrix output under transforms equals the untransformed output re-indexed by the
     reported row and column display orders.** -/
-theorem matrix_reindexed (b : Blocks) (ro co ro0 co0 : List Int)
+theorem matrix_reindexed (b : ABlocks) (ro co ro0 co0 : List Int)
     (hr : ∀ x ∈ ro, x ∈ ro0) (hc : ∀ y ∈ co, y ∈ co0) :
     assembleMatrix b ro co =
       ro.map fun x => co.map fun y =>
@@ -53,7 +53,7 @@ theorem vector_reindexed (n nins : Nat) (base ins : Nat → Val) (o o0 : List In
   rw [getD_idxOf_map o0 (vecCell n nins base ins) x Val.nan (h x hx)]
 
 /-- each output's extent matches the reported orders (hence `shape`) -/
-theorem extent_matches (b : Blocks) (ro co : List Int) :
+theorem extent_matches (b : ABlocks) (ro co : List Int) :
     (assembleMatrix b ro co).length = ro.length ∧
     ∀ row ∈ assembleMatrix b ro co, row.length = co.length := by
   unfold assembleMatrix
@@ -65,7 +65,7 @@ theorem extent_matches (b : Blocks) (ro co : List Int) :
 
 /-- position i of every row-wise output refers to the same element: two measures assembled with
     the same orders read the same (signed) vector at every position -/
-theorem aligned (b b' : Blocks) (ro co : List Int) (i j : Nat) (hi : i < ro.length) (hj : j < co.length) :
+theorem aligned (b b' : ABlocks) (ro co : List Int) (i j : Nat) (hi : i < ro.length) (hj : j < co.length) :
     ((assembleMatrix b ro co).getD i []).getD j .nan = b.cell ro[i] co[j] ∧
     ((assembleMatrix b' ro co).getD i []).getD j .nan = b'.cell ro[i] co[j] := by
   unfold assembleMatrix
@@ -74,9 +74,9 @@ theorem aligned (b b' : Blocks) (ro co : List Int) (i j : Nat) (hi : i < ro.leng
 /-- a signed index names a base element iff it is non-negative: hidden / pruned base elements
     keep contributing to every base and margin because the blocks never see the order
     (re-indexing theorem above), and python's negative indexes reach exactly the inserted vectors -/
-theorem neg_index_is_insertion (b : Blocks) (k : Nat) (hk : k < b.nir) (sj : Int) :
+theorem neg_index_is_insertion (b : ABlocks) (k : Nat) (hk : k < b.nir) (sj : Int) :
     b.cell (-(((b.nir - k : Nat) : Int))) sj = b.full (b.nr + k) (wrapIdx (b.nc + b.nic) sj) := by
-  unfold Blocks.cell wrapIdx
+  unfold ABlocks.cell wrapIdx
   have h1 : (-(((b.nir - k : Nat) : Int))) < 0 := by omega
   simp only [h1, if_true]
   congr 1
@@ -84,7 +84,7 @@ theorem neg_index_is_insertion (b : Blocks) (k : Nat) (hk : k < b.nir) (sj : Int
 
 -- test (not the claim): 2×2 body, one inserted row; order [-1, 1, 0] puts the subtotal first
 example :
-    let b : Blocks := ⟨2, 2, 1, 0, fun i j => .fin (10 * i + j : Nat), fun _ _ => .nan,
+    let b : ABlocks := ⟨2, 2, 1, 0, fun i j => .fin (10 * i + j : Nat), fun _ _ => .nan,
       fun _ j => .fin (100 + j : Nat), fun _ _ => .nan⟩
     assembleMatrix b [-1, 1, 0] [1, 0] = [[.fin 101, .fin 100], [.fin 11, .fin 10], [.fin 1, .fin 0]] := by
   decide +kernel
